@@ -22,3 +22,15 @@ uint64_t g_k0[ND]; uint8_t g_f0[ND]; size_t g_n0;
 #define KEEP0(k) (((k) < g_n0 && !SU0(k)) ? 1u : 0u)
 /* the number of entries in [a, b) of the old list that are kept */
 #define CNT(a, b) ((0 >= (a) && 0 < (b) ? KEEP0(0) : 0u) + (1 >= (a) && 1 < (b) ? KEEP0(1) : 0u) + (2 >= (a) && 2 < (b) ? KEEP0(2) : 0u) + (3 >= (a) && 3 < (b) ? KEEP0(3) : 0u))
+/* vector::insert(pos, first, last) with at most 2 inserted elements into a list of at most 2 (capacity ND), written out */
+#define DEF_INSERT(NAME, VEC, T) \
+static inline void NAME(VEC *v, T *pos, const T *first, const T *last) { \
+  long i = pos - v->ptr, n = last - first; \
+  __CPROVER_assert(i >= 0 && (size_t)i <= v->len && n >= 0 && n <= 2 && v->len <= 2, "insert: position inside the list, at most two elements into at most two"); \
+  if (1 >= i && 1 < (long)v->len) v->ptr[1 + n] = v->ptr[1]; \
+  if (0 >= i && 0 < (long)v->len) v->ptr[0 + n] = v->ptr[0]; \
+  if (n > 0) v->ptr[i] = first[0]; \
+  if (n > 1) v->ptr[i + 1] = first[1]; \
+  v->len = v->len + (size_t)n; }
+DEF_INSERT(vec_keyid_insert, vec_keyid, struct KeyID)
+DEF_INSERT(vec_u8_insert, vec_u8, uint8_t)
